@@ -48,7 +48,7 @@ def shards(tier, seed):
             out += [{"name": f"{f}:T:{i}", "file": f, "mode": "T", "lo": i * step, "hi": min(n + 1, (i + 1) * step)} for i in range(k)]
             out += [{"name": f"{f}:T-fields", "file": f, "mode": "T-fields", "sub": "T"}, {"name": f"{f}:field-ids", "file": f, "mode": "T-fields", "sub": "F"},
                     {"name": f"{f}:varint-inflation", "file": f, "mode": "T-fields", "sub": "V"}]
-            out += [{"name": f"{f}:seeded:{i}", "file": f, "mode": "seeded", "n": 9000} for i in range(24)]
+            out += [{"name": f"{f}:seeded:{i}", "file": f, "mode": "seeded", "n": 3000} for i in range(24)]
             out += [{"name": f"{f}:carrier:{i}", "file": f, "mode": "carrier-all", "i": i, "k": 32} for i in range(32)]
             out += [{"name": f"{f}:structured:{sub}:{i}", "file": f, "mode": "structured", "sub": sub, "n": None, "i": i, "k": 6} for sub in "ARP" for i in range(6)]
     return out
